@@ -386,9 +386,13 @@ class Check:
             if k not in seen:
                 seen.add(k)
                 print(f"KNOWN-FINDING: property={self.prop} {k}: {text}")
-        for v in self.violations:
+        # violations with a failing input first; at most 20 lines (all of them are counted in the evidence file)
+        vs = sorted(self.violations, key=lambda v: not v["found_input"])
+        for v in vs[:20]:
             tail = "" if v["found_input"] else " no-failing-input-found"
             print(f"VIOLATION property={self.prop} replay={v['replay']}{tail}")
+        if len(vs) > 20:
+            print(f"({len(vs) - 20} further violations of {self.prop} not listed; replays under {os.path.dirname(vs[0]['replay'])})")
         sys.stdout.flush()
         return 1 if self.violations else 0
 
